@@ -29,6 +29,8 @@ RULE = ("documents: jsongen valid texts, byte-mutated texts, texts padded to 409
         "positioned descriptors (DR/DW): from_fd(_ex)/to_fd on a regular-file descriptor opened read-only / read-write / O_APPEND / write-only by the "
         "caller and standing at every offset 0..len of header+text files (end of file included), all other descriptor calls "
         "(lseek pread pwrite fstat ftruncate fsync fdatasync dup dup2 fcntl readv writev mmap fdopen posix_fadvise) recorded on every line; "
+        "descriptor numbers: lines of every kind re-run with the descriptor number (the scripted open()'s return value and the caller-provided descriptor) "
+        "set to 0, 1, 2, 3, 255, 1024, 65536, INT_MAX, plus the enumerated from_file/to_file schedules on descriptors 0 and INT_MAX; "
         "failure reports (N): from_file / to_file_ext / to_file on file names with printf metacharacters (%d %s %n %x %% lone % %5$s %*d ...), "
         "names of 150..5000 bytes around the 256-byte message buffer, plain names x open() failing (ENOENT EACCES ENOTDIR EMFILE ENAMETOOLONG ...) "
         "or the first read()/write() failing; "
@@ -331,6 +333,42 @@ def gen(rng, tier):
     out += gen_names(rng, tier)
     out += gen_descriptors(rng, tier, docs, [(t, fl, sers[(t, fl)]) for (t, fl, _) in trees if (t, fl) in sers])
     out += gen_small_scope(tier, sers)
+    out += gen_fdnums(rng, tier, out)
+    return out
+
+
+FD_NUMBERS = [0, 1, 2, 3, 255, 1024, 65536, 2147483647]
+
+
+def gen_fdnums(rng, tier, cases):
+    """any descriptor number is a descriptor: the library's own open() handing out 0, 1, 2 (a
+    process without standard descriptors), small and huge numbers; the caller's descriptors of
+    from_fd / from_fd_ex / to_fd taking the same values — re-runs of lines of every kind under "@<n>" """
+    out = []
+    by_op = {}
+    for (line, meta) in cases:
+        f = line.split(" ")
+        op = f[1] + (f[2] if f[1] == "F" else "")
+        if len(line) < 600 and not meta["kind"].startswith("small-scope"):
+            by_op.setdefault(op, []).append(line)
+    per = 6 if tier == "quick" else 60
+    for n in FD_NUMBERS:
+        for op in sorted(by_op):
+            ls = by_op[op]
+            picks = ls[:3] + [rng.choice(ls) for _ in range(per)]
+            if op in ("FR", "FW", "Fw", "P"):
+                picks += [rng.choice(ls) for _ in range(2 * per)]
+            for l in picks:
+                f = l.split(" ")
+                out.append((" ".join([f[0], "@%d" % n] + f[1:]), {"kind": "fdnum-%d/%s" % (n, op)}))
+    # enumerated: the file entry points on descriptors 0 and INT_MAX, every schedule of <= 3 transfers
+    for (line, meta) in cases:
+        if meta["kind"] in ("small-scope/FR", "small-scope/FW"):
+            f = line.split(" ")
+            sc = f[5] if f[2] == "R" else f[6]
+            if sc.count(",") <= 2 and "*" not in sc:
+                for n in (0, 2147483647):
+                    out.append((" ".join([f[0], "@%d" % n] + f[1:]), {"kind": "small-scope/fdnum"}))
     return out
 
 
@@ -884,12 +922,12 @@ def oracle(line, meta, impl):
     if impl == "MISSING":
         return None     # never run (the driver was restarted too often after crashes): the correspondence flags it
     if "CRASH" in impl:
-        if line.startswith("fd N "):
-            f = line.split(" ")
+        if " N " in line[:20]:
+            f = [x for x in line.split(" ") if not x.startswith("@")]
             return ("crash-in-failure-report", "reporting a failed %s (%s) for file name %r crashed: %s"
                     % ("open()" if f[3] == "o" else "read()/write()", f[4], unhx(f[5])[:40], impl[:80]))
         return ("crash", "implementation crashed: " + impl[:100])
-    t = line.split(" ")
+    t = [x for x in line.split(" ") if not x.startswith("@")]     # "@<n>": the descriptor number, nothing depends on it
     o = impl.split(" ")
     if "BADFD" in o:
         return ("bad-fd", "read/write/close called on a descriptor other than the one given/opened")
@@ -937,7 +975,7 @@ def classify(line, meta, mo, co):
 
 def nontrivial(line, meta, impl):
     o = impl.split(" ")
-    t = line.split(" ")
+    t = [x for x in line.split(" ") if not x.startswith("@")]
     try:
         if o[0] in ("W", "FW"):
             if (o[1] == "0" and int(o[3]) >= 2) or (o[1] == "-1" and int(o[3]) >= 1):
@@ -961,9 +999,23 @@ def nontrivial(line, meta, impl):
 
 def shrink(ck, line, cls):
     import fw
+    at = [x for x in line.split(" ") if x.startswith("@")]
+    t = [x for x in line.split(" ") if not x.startswith("@")]
+    if at:
+        small = shrink_inner(ck, " ".join(t), cls, at[0])
+        f = small.split(" ")
+        return " ".join([f[0], at[0]] + f[1:])
+    return shrink_inner(ck, line, cls, None)
+
+
+def shrink_inner(ck, line, cls, at):
+    import fw
     t = line.split(" ")
 
     def fails(l):
+        if at:
+            f = l.split(" ")
+            l = " ".join([f[0], at] + f[1:])
         m, c, _ = ck.run_pair([l], "shrink")
         v = oracle(l, {}, c.get(1, "MISSING"))
         return v is not None and v[0] == cls
